@@ -66,6 +66,15 @@ CLAIMED["C12"] = (
     "rejected int indices and purity of earlier objects. Rejection of inconsistent inputs: oracle probes. cutby on null category: "
     "known finding.",
     "regenerated anchors + Coq list theorems + in-Coq history correspondence")
+CLAIMED["C09"] = (
+    "Theorems (Coq, Q and lists): the sum and count of a stack are invariant under chunking/batching (concat) and regrouping "
+    "(Permutation), mean*count = sum, so any chunking and the count-weighted mean of per-tomogram/per-group means give the same "
+    "mean; the split index vectors are complementary for EVERY sampled list (repeats allowed, as rng.choice draws with replacement), "
+    "both halves are non-empty for n >= 2, and the half sums/counts recombine to the whole. Tie: sample-size expression and "
+    "structural anchors regenerated; random_splitter driven by a scripted generator (exact masks); average / average_split / "
+    "BatchLoader / LoaderGroup averages on integer tomograms (numpy + 3 dask chunkings) compared voxel-wise with the exact rational "
+    "means computed in Coq; seeded reproducibility checked on the implementation. Generic poses / order 3 / n_set>1: numeric oracle.",
+    "regenerated anchors + Coq theorems (Q, induction, pigeonhole) + in-Coq correspondence")
 NOT_YET = "machinery for this property is not built yet in this revision (see DESIGN.md §6 for the planned model)"
 
 def main():
